@@ -339,3 +339,113 @@ infer_type_and_default = Contract(
     canaries=["result[3] == 'int'", "result[1] is None"],
 )
 CONTRACTS.append(infer_type_and_default)
+
+# ------------------------------------------------------------------------------------------- param2argparse_param (C04: one option)
+def _p2ap_case(name, typ, default="<absent>", assume=()):
+    d = {"typ": ("lit", typ), "doc": ("lit", "the option")}
+    if default != "<absent>":
+        d["default"] = default
+    return Case(name, {"param": ("tuple", [("lit", "opt"), ("dict", d)]), "word_wrap": False, "emit_default_doc": False}, assume=list(assume))
+
+
+_KW = "{k.arg: k.value for k in result.value.keywords}"
+
+param2argparse_param = Contract(
+    "doctrans.ast_utils:param2argparse_param",
+    properties=["C04", "C06"],
+    note="one option called 'opt' with the literal prose 'the option' (so the default-sentence scan runs concretely), of type int / str / bool / float / Optional[int] / List[str] / Literal['a', 'b'], with and "
+         "without an explicit default; the type string is a literal, so ast.parse really parses it; extract_default by contract; no word wrap",
+    cases=[
+        _p2ap_case("int,default", "int", "int"), _p2ap_case("int,nodefault", "int"),
+        _p2ap_case("str,default", "str", "str", assume=["not (len(param[1]['default']) > 6 and param[1]['default'][:3] == '```' and param[1]['default'][-3:] == '```')",
+                                                        "param[1]['default'] != '```(None)```'"]),
+        _p2ap_case("bool,default", "bool", "bool"),
+        _p2ap_case("Optional[int],nodefault", "Optional[int]"), _p2ap_case("Optional[int],default", "Optional[int]", "int"),
+        _p2ap_case("List[str],nodefault", "List[str]"),
+        _p2ap_case("Literal,default", "Literal['a', 'b']", ("lit", "a")),
+    ],
+    ensures=[
+        Clause("P2A-call", "typeis(result, 'Expr') and typeis(result.value, 'Call') and result.value.func.attr == 'add_argument' and result.value.func.value.id == 'argument_parser' "
+                           "and len(result.value.args) == 1 and result.value.args[0].value == '--opt'", note="argument_parser.add_argument('--opt', ...)"),
+        Clause("P2A-help", "('help' in %s) and %s['help'].value == 'the option'" % (_KW, _KW), note="C04: the prose is the help text"),
+        Clause("P2A-type-int", "('type' in %s) and %s['type'].id == 'int'" % (_KW, _KW), when=["int,default", "int,nodefault", "Optional[int],nodefault", "Optional[int],default"],
+               note="C04: the scalar type of the option"),
+        Clause("P2A-type-bool", "('type' in %s) and %s['type'].id == 'bool'" % (_KW, _KW), when=["bool,default"]),
+        Clause("P2A-type-str", "('type' in %s) == False" % _KW, when=["str,default", "Literal,default"], note="str is argparse's default type: not written"),
+        Clause("P2A-default", "('default' in %s) and %s['default'].value == old_param[1]['default']" % (_KW, _KW), when=["int,default", "bool,default", "Optional[int],default"],
+               note="C04: an explicit default is emitted with its value (falsy ones included)"),
+        Clause("P2A-no-default", "('default' in %s) == False" % _KW, when=["int,nodefault", "Optional[int],nodefault", "List[str],nodefault"], note="no default is invented"),
+        Clause("P2A-required", "('required' in %s) == True and %s['required'].value == True" % (_KW, _KW), when=["int,default", "int,nodefault", "str,default", "bool,default"],
+               note="a non-Optional scalar option is required"),
+        Clause("P2A-optional", "('required' in %s) == False" % _KW, when=["Optional[int],nodefault", "Optional[int],default"], note="Optional[...] makes the option optional"),
+        Clause("P2A-list", "('action' in %s) and %s['action'].value == 'append'" % (_KW, _KW), when=["List[str],nodefault"], note="List[...] options append"),
+        Clause("P2A-choices", "('choices' in %s) and [e.value for e in %s['choices'].elts] == ['a', 'b']" % (_KW, _KW), when=["Literal,default"], note="C04 / C06: a Literal of constants offers exactly those choices"),
+    ],
+    canaries=["len(result.value.keywords) == 1"],
+)
+CONTRACTS.append(param2argparse_param)
+
+# ------------------------------------------------------------------------------------------- law: one argparse option there and back (C04-L for scalars)
+def _rt_case(name, typ, default="<absent>", assume=()):
+    d = {"typ": ("lit", typ), "doc": ("lit", "the option")}
+    if default != "<absent>":
+        d["default"] = default
+    return Case(name, {"param": ("tuple", [("lit", "opt"), ("dict", d)])}, assume=list(assume))
+
+
+argparse_option_roundtrip = Contract(
+    "vf.contracts.laws:argparse_option_roundtrip",
+    properties=["C04", "C05"],
+    note="C04 for ONE option, deductively: param2argparse_param followed by parse_out_param (both real functions, inlined) on an option with literal name / prose and a "
+         "symbolic default: the description that comes back is the one that went in",
+    cases=[_rt_case("int,default", "int", "int"), _rt_case("bool,default", "bool", "bool"), _rt_case("Optional[int],default", "Optional[int]", "int"),
+           _rt_case("int,nodefault", "int"), _rt_case("Literal,default", "Literal['a', 'b']", ("lit", "a"))],
+    ensures=[
+        Clause("RT-name", "result[0] == 'opt'", note="the option's name"),
+        Clause("RT-prose", "result[1]['doc'] == 'the option'", note="its prose"),
+        Clause("RT-default", "('default' in result[1]) and result[1]['default'] == old_param[1]['default'] and typeis(result[1]['default'], 'int')", when=["int,default", "Optional[int],default"],
+               note="C04: every explicit int default comes back with its value and type - zero and negatives included"),
+        Clause("RT-default-bool", "('default' in result[1]) and result[1]['default'] == old_param[1]['default'] and typeis(result[1]['default'], 'bool')", when=["bool,default"]),
+        Clause("RT-typ-int", "result[1]['typ'] == 'int'", when=["int,default", "int,nodefault"]),
+        Clause("RT-typ-bool", "result[1]['typ'] == 'bool'", when=["bool,default"]),
+        Clause("RT-typ-optional", "result[1]['typ'] == 'Optional[int]'", when=["Optional[int],default"], note="an optional option keeps its Optional[...] type"),
+        Clause("RT-literal", "result[1]['typ'] == \"Literal['a', 'b']\" and result[1]['default'] == 'a'", when=["Literal,default"], note="choices come back as the Literal type"),
+    ],
+    canaries=["result[1]['default'] == 0"],
+)
+CONTRACTS.append(argparse_option_roundtrip)
+
+# ------------------------------------------------------------------------------------------- law: one class attribute there and back (C02-L for scalars)
+def _crt_case(name, typ, default="<absent>", assume=()):
+    d = {"typ": ("lit", typ)}
+    if default != "<absent>":
+        d["default"] = default
+    return Case(name, {"param": ("tuple", [("lit", "attr"), ("dict", d)])}, assume=list(assume))
+
+
+_STR_OK = ["param[1]['default'] not in ('None', '```(None)```')", "not (len(param[1]['default']) > 6 and param[1]['default'][:3] == '```' and param[1]['default'][-3:] == '```')",
+           "not (len(param[1]['default']) >= 2 and param[1]['default'][0] == param[1]['default'][-1] and param[1]['default'][0] in ('\"', \"'\"))"]
+
+class_attribute_roundtrip = Contract(
+    "vf.contracts.laws:class_attribute_roundtrip",
+    properties=["C02", "C05"],
+    note="C02 for ONE attribute, deductively: param2ast followed by parse.class_ (both real, inlined; get_docstring answers None, to_code is opaque - so the "
+         "TYPE text is outside this law) on an attribute with a literal name and a symbolic default; str defaults that are a None spelling, code-quoted or "
+         "themselves quoted are excluded (findings D-nonestring / the quote-stripping of set_value)",
+    cases=[_crt_case("int,default", "int", "int"), _crt_case("bool,default", "bool", "bool"), _crt_case("str,default", "str", "str", assume=_STR_OK),
+           _crt_case("int,nodefault", "int"), _crt_case("str,nodefault", "str")],
+    use_contract_for=["doctrans.defaults_utils:needs_quoting"],
+    ensures=[
+        Clause("CRT-names", "list(result['params'].keys()) == ['attr']", note="the attribute comes back as the one parameter"),
+        Clause("CRT-int", "result['params']['attr']['default'] == old_param[1]['default'] and typeis(result['params']['attr']['default'], 'int')", when=["int,default"],
+               note="C02: every explicit int default comes back with its value and type - zero and negatives included"),
+        Clause("CRT-bool", "result['params']['attr']['default'] == old_param[1]['default'] and typeis(result['params']['attr']['default'], 'bool')", when=["bool,default"]),
+        Clause("CRT-str", "result['params']['attr']['default'] == old_param[1]['default']", when=["str,default"]),
+        Clause("CRT-zero-int", "result['params']['attr']['default'] == 0", when=["int,nodefault"], note="N_class: no default -> the zero value of the type"),
+        Clause("CRT-zero-str", "result['params']['attr']['default'] == ''", when=["str,nodefault"]),
+        Clause("CRT-no-returns", "result['returns'] is None"),
+    ],
+    canaries=["result['params']['attr']['default'] == 0"],
+)
+class_attribute_roundtrip.opaque = {"get_docstring": {"ret": "none"}, "to_code": {"ret": "str"}}
+CONTRACTS.append(class_attribute_roundtrip)
